@@ -124,6 +124,11 @@ func (c *Config) getCacheTTL(resp *TokenInfo) time.Duration {
 		func() time.Duration { return *c.TTL },
 		func() time.Duration { return 0 })
 
+	// the token is already expired or expires within the leeway: nothing to be cached, whatever has been configured
+	if !resp.Expiry.IsZero() && tokenEndpointResponseTTL == 0 {
+		return 0
+	}
+
 	switch {
 	case configuredTTL == 0 && tokenEndpointResponseTTL == 0:
 		return 0
